@@ -9,7 +9,7 @@ on messages without a key; the key list is a pinned copy.
 from vlib.mc import enum as E
 
 PROPERTY = 'C04'
-LEVEL = 'exploration'
+LEVEL = 'model_checking'
 ENGINE = 'C'
 TECHNIQUE = ('stateless bounded model checking: complete enumeration of the product keys x case forms x '
              'renderings x per-rendering secret alphabet x contexts x masks '
